@@ -239,13 +239,18 @@ func checkC19(c *Checker) {
 		detail := ""
 		for _, o := range s.Outcomes {
 			for _, e := range mods(o) {
-				if e.Kind == EStoreElem && effectRoot(e) == dstRoot && strings.HasSuffix(e.Stor.Name, ".data") {
+				if e.Kind == EStoreElem && effectRoot(e) == dstRoot && strings.HasSuffix(e.Stor.Name, hdrLayout.dataSuffix()) {
 					// the store must be bounds-checked against the view's own length: the indexed slice is the
 					// header's data as loaded (not re-extended into the capacity, which other windows share)
 					lenAtom := mkAtom("len("+e.Stor.Name+")", intT)
 					bounded := false
 					for _, ix := range o.St.effects {
-						if ix.Kind == EIndex && ix.Note != "slice" && ix.Pos == e.Pos && ix.Stor == e.Stor && ix.Seq < e.Seq && eqInt(ix.Hi, lenAtom) {
+						if ix.Kind != EIndex || ix.Note == "slice" || ix.Stor != e.Stor || ix.Seq >= e.Seq || !eqInt(ix.Hi, lenAtom) {
+							continue
+						}
+						// the bounds check of the very element that is stored (in the store statement itself, or where
+						// the element's address was taken)
+						if ix.Pos == e.Pos || (ix.Dst != nil && ix.Idx != nil && normInt(ix.Dst.Off).Add(normInt(ix.Idx)).Equal(normInt(e.Idx))) {
 							bounded = true
 						}
 					}
